@@ -37,6 +37,7 @@ type vBroker struct {
 	mux      *http.ServeMux
 	bridges  []vBridge
 	metricsW *syncBuffer
+	bin      *vBinary // non-nil: a real broker process (binary_test.go); ctx, ipc, mux are nil then
 }
 
 type syncBuffer struct {
@@ -62,6 +63,9 @@ func (s *syncBuffer) Reset() {
 
 // newVBroker builds a broker; bridges == nil keeps the built-in default list.
 func newVBroker(id int, bridges []vBridge, allowed, presumed string) *vBroker {
+	if vBinaryMode {
+		return newVBrokerBinary(id, bridges, allowed, presumed, vBinaryOpts)
+	}
 	mw := &syncBuffer{}
 	ctx := NewBrokerContext(log.New(mw, "", 0))
 	b := &vBroker{id: id, ctx: ctx, metricsW: mw}
@@ -109,6 +113,9 @@ func (b *vBroker) bridgeURL(fp string) (string, bool) {
 // do performs one request in-process through the mux (the same handlers and
 // routing the binary uses; no sockets, so thousands may be in flight).
 func (b *vBroker) do(method, path string, hdr map[string]string, body []byte, remote string) (int, []byte) {
+	if b.bin != nil {
+		return b.bin.do(method, path, hdr, body, remote)
+	}
 	req := httptest.NewRequest(method, "http://broker.test"+path, bytes.NewReader(body))
 	if remote != "" {
 		req.RemoteAddr = remote
@@ -295,6 +302,9 @@ func (b *vBroker) debugAvailable() int {
 
 // gaugeSum sums snowflake_available_proxies over all label sets.
 func (b *vBroker) gaugeSum() float64 {
+	if b.bin != nil {
+		return b.bin.gaugeSum()
+	}
 	mfs, err := b.ctx.metrics.promMetrics.registry.Gather()
 	if err != nil {
 		return -1
@@ -312,6 +322,9 @@ func (b *vBroker) gaugeSum() float64 {
 
 // internals reads heap and map sizes under the broker's own lock.
 func (b *vBroker) internals() (unrestricted, restricted, ids int) {
+	if b.bin != nil {
+		return 0, 0, 0 // not observable from outside the process; /debug and the gauge are
+	}
 	b.ctx.snowflakeLock.Lock()
 	defer b.ctx.snowflakeLock.Unlock()
 	return b.ctx.snowflakes.Len(), b.ctx.restrictedSnowflakes.Len(), len(b.ctx.idToSnowflake)
